@@ -305,3 +305,25 @@ package sql
 //@   pure
 //@   nosafety
 //@   ensures result == newType(ty.t.Fields[fieldIndex].Type)
+
+// the SQL name of an enum column is the name of the basic type it is defined over, the name of an array column
+// that of its element type followed by []
+//@ func Enum.Name
+//@   props C08
+//@   pure
+//@   nosafety
+//@   ensures result == basicTypeName(e.E.Underlying())
+//@ func Array.Name
+//@   props C08
+//@   pure
+//@   nosafety
+//@   ensures is(ar.A.Elem, *an.Enum) ==> result == fmt.Sprintf("%s[]", basicTypeName(as(ar.A.Elem, *an.Enum).Underlying()))
+//@   ensures !is(ar.A.Elem, *an.Enum) ==> result == fmt.Sprintf("%s[]", basicTypeName(as(ar.A.Elem, *an.Basic).B))
+//@ func Builtin.Name
+//@   props C08
+//@   pure
+//@   ensures result == b.name
+//@ func JSON.Name
+//@   props C08
+//@   pure
+//@   ensures result == "jsonb"
